@@ -237,6 +237,12 @@ func (o ObjSpec) runtimeObject() runtime.Object {
 		if o.MetaRV != "" {
 			acc.SetUID(types.UID("uid-" + o.MetaRV))
 			acc.SetFinalizers([]string{"example.com/f"})
+			if o.MetaGen%2 == 1 { // being deleted, held by the finalizer
+				ts := metav1.NewTime(time.Unix(1700000000, 0))
+				grace := int64(30)
+				acc.SetDeletionTimestamp(&ts)
+				acc.SetDeletionGracePeriodSeconds(&grace)
+			}
 			if o.Kind == "controller" {
 				acc.SetLabels(map[string]string{"rev": o.MetaRV})
 			}
